@@ -115,3 +115,14 @@ func F2L(k int, core bool) *Family {
 		return c
 	}}
 }
+
+// F2LMini: F2L over a reduced alphabet (see F2TreesMini) with a larger node budget.
+func F2LMini(k, mini int) *Family {
+	trees := F2TreesMini(k, mini)
+	name := fmt.Sprintf("F2Lm%dk%d", mini, k)
+	return &Family{Name: name, Count: len(trees) * len(f2lPositions), At: func(i int) *Case {
+		c := BuildF2L(trees[i/len(f2lPositions)], f2lPositions[i%len(f2lPositions)])
+		c.Family, c.Index = name, i
+		return c
+	}}
+}
